@@ -355,4 +355,9 @@ def main_wrapper(fn):
         sys.stderr.write("INFRASTRUCTURE: %s\n" % e)
         print("check could not run (infrastructure), no verdict")
         sys.exit(2)
+    except Exception:
+        import traceback
+        traceback.print_exc()
+        print("check failed internally (infrastructure), no verdict")
+        sys.exit(2)
     sys.exit(rc)
